@@ -347,11 +347,10 @@ def scheduled(prog: Program, rep: Report):
     tot = fa.sym.term(c.args[1], n) if len(c.args) > 1 else None
     rep.decide(tot == ("self", "n_batches"), "G6.schedule-index", fi, "total", "schedule evaluated against n_batches",
                f"schedule evaluated against {show(tot) if tot else '?'}", line=c.lineno, clause="C15.5", nontrivial=False)
-    incs = [(m, st) for m in cfg.nodes for st in [cfg.nodes[m].ast] if cfg.nodes[m].kind == "stmt"
-            and isinstance(st, ast.AugAssign) and isinstance(st.target, ast.Attribute) and st.target.attr == "sample_counter"]
+    incs = [(m, op, e) for m, op, e in fa.updates(f"{fa.self_name}.sample_counter", ops=(ast.Add, ast.Sub))]
     stores = [m for m, var, val in fa.stores() if var.endswith(".sample_counter")]
-    ok = len(incs) == 1 and len(stores) == 1 and isinstance(incs[0][1].op, ast.Add) and \
-        term_to_poly(fa.sym.term(incs[0][1].value, incs[0][0])).const_value() == 1 and \
+    ok = len(incs) == 1 and len(stores) == 1 and incs[0][1] is ast.Add and \
+        term_to_poly(fa.sym.term(incs[0][2], incs[0][0])).const_value() == 1 and \
         fa.conds_at(incs[0][0]) == fa.conds_at(n) and cfg.reachable(n, incs[0][0])
     rep.decide(ok, "G6.schedule-index", fi, "counter", "sample_counter += 1 once per scheduled call, after the index was computed",
                "the sample counter is not incremented by exactly 1 per scheduled call after the batch index was computed",
